@@ -71,6 +71,7 @@ class WriteSparseArray(Contract):
             # the clause a format-dependent shortcut breaks: the stored triple must be the CSR triple of the matrix
             ("stored-triple-is-the-csr-triple-of-the-matrix", stored_matrix(g1.ds, g1.attrs, nm) == H.sp_mat(v)),
             ("datasets", z3.ForAll([s], g1.ds.has(s) == z3.Or(g0.ds.has(s), s == nm))),
+            ("one-more-dataset", g1.ds.n == g0.ds.n + 1),
             ("other-datasets-unchanged", z3.ForAll([s], z3.Implies(s != nm, z3.And(g1.ds.get(s) == g0.ds.get(s), g1.attrs.get(s) == g0.attrs.get(s))))),
         ]
 
@@ -165,6 +166,9 @@ class CF:
     def ds_val(self, p):
         return EDS.acc(1)(self.gds.vals[p])
 
+    def ds_n(self, p):
+        return EDS.acc(2)(self.gds.vals[p])
+
     def at(self, p, name):
         return EAT.acc(1)(self.gat.vals[p])[name]
 
@@ -253,6 +257,7 @@ def _write_inv(c, k):
         ("other-groups-kept", others_kept(F0, F1, p)),
         ("heap", c.new_sym("arr", ValS) == h0),
         ("no-clash-so-far", FA([s], z3.Implies(z3.And(data.member[s], pos[s] < k), z3.Not(was(s))), data.member[s])),
+        ("size", F1.ds_n(p) == z3.If(F0.has_grp(p), F0.ds_n(p), 0) + k), ("type:members", F1.nmem >= 0),
     ] + _entry_facts(c, F0, F1) + file_wf(F1)[1:2]
 
 
@@ -304,6 +309,8 @@ class WriteData(_Sing):
             ("datasets", z3.ForAll([s], F1.ds_mem(p)[s] == z3.Or(was(s), data.has(s)))),
             ("old-datasets-kept", z3.ForAll([s], z3.Implies(was(s), z3.And(F1.ds_val(p)[s] == F0.ds_val(p)[s], F1.at(p, s) == F0.at(p, s))))),
             ("other-groups-kept", others_kept(F0, F1, p)),
+            ("size", F1.ds_n(p) == z3.If(F0.has_grp(p), F0.ds_n(p), 0) + data.n),
+            ("type:members", F1.nmem >= 0),
         ] + _entry_facts(c, F0, F1) + file_wf(F1)
 
 
@@ -338,6 +345,7 @@ def _read_inv1(c, k):
                                                                                  z3.And(H.is_sparse(val(keys[i])), H.sp_fmt(val(keys[i])) == H.FMT_CSR, z3.Not(H.np_dtype_is_bytes(val(keys[i]))), H.sp_mat(val(keys[i])) == F0.matrix(p, keys[i])),
                                                                                  val(keys[i]) == d(keys[i])))), patterns=[keys[i]])),
         ("names", FA([s], data.member[s] == z3.And(F0.ds_mem(p)[s], pos[s] < k), data.member[s])),
+        ("size", data.n == k),
         ("heap", heap_preserved(c)),
     ]
 
@@ -359,6 +367,7 @@ def _read_inv2(c, k):
     before = lambda t: hpre[pdata.vals[t]]  # noqa: E731
     return [
         ("names", FA([s], data.member[s] == pdata.member[s], data.member[s])),
+        ("size", data.n == pdata.n),
         ("not-yet-visited:unchanged", FA([s], z3.Implies(z3.And(pdata.member[s], pos[s] >= k), data.vals[s] == pdata.vals[s]), data.vals[s])),
         ("visited:converted", FA([s], z3.Implies(z3.And(pdata.member[s], pos[s] < k),
                                                  z3.And(data.vals[s] > 0, data.vals[s] <= c.new_ctr,
@@ -395,6 +404,7 @@ class ReadData(_Sing):
         return [
             ("absent:empty", z3.Implies(z3.Not(present), r.n == 0)),
             ("names", z3.Implies(present, z3.ForAll([s], r.has(s) == F0.ds_mem(p)[s]))),
+            ("size", z3.Implies(present, r.n == F0.ds_n(p))),
             ("values-decode-the-datasets", z3.Implies(present, z3.ForAll([s], z3.Implies(r.has(s), decodes(F0, p, s, h1[r.get(s)]))))),
             ("result-allocated", allocated(r, c.new_ctr)),
             ("heap-preserved", heap_preserved(c)),
